@@ -1,10 +1,12 @@
 #!/usr/bin/env python3
-"""merges /verif/seeded/matrix.<k>.json (written by the shards of tools/matrix.sh) into matrix.json"""
-import json, glob, os
-m = {}
-for f in sorted(glob.glob('/verif/seeded/matrix.[0-9]*.json')):
+"""merges the shard files written by tools/matrix.sh: `matrix_merge.py` -> seeded/matrix.json (kept entries
+of an earlier full run are updated, not dropped); `matrix_merge.py own` -> seeded/own.json"""
+import json, glob, os, sys
+kind = 'own' if len(sys.argv) > 1 and sys.argv[1] == 'own' else 'matrix'
+dst = f'/verif/seeded/{kind}.json'
+m = json.load(open(dst)) if os.path.exists(dst) else {}
+for f in sorted(glob.glob(f'/verif/seeded/{kind}.[0-9]*.json')):
     m.update(json.load(open(f)))
-json.dump(dict(sorted(m.items())), open('/verif/seeded/matrix.json', 'w'), indent=0)
-for f in glob.glob('/verif/seeded/matrix.[0-9]*.json'):
     os.remove(f)
+json.dump(dict(sorted(m.items())), open(dst, 'w'), indent=0)
 print(len(m), 'seeds')
